@@ -48,6 +48,17 @@ fn err<T: std::fmt::Debug>(e: tls_parser::nom::Err<tls_parser::nom::error::Error
     format!("rejected: {:?}", e.map(|x| x.code))
 }
 
+/// record payload for the record-level fields: small for template variant 0; for the other variants one of the sizes around the
+/// 2^14 and 2^14+256 limits (for 16-bit fields only every 251st value, to keep the sweep cheap)
+fn big_or_small(t: &mut Tape, v: u32) -> Vec<u8> {
+    let small = t.small_blob(20);
+    if t.exhausted() || t.u8() == 0 || v % 251 != 0 {
+        return small;
+    }
+    let n = t.pick(&[16384usize, 16385, 16639, 16640, 300, 16500]);
+    vec![0x61; n]
+}
+
 fn rec(ctype: u8, version: u16, payload: &[u8]) -> Vec<u8> {
     let mut e = Enc::new();
     e.u8(ctype);
@@ -85,19 +96,19 @@ fn specs() -> Vec<Spec> {
             parse_tls_plaintext(&b).map(|(_, p)| p.hdr.version.0 as u32).map_err(err)
         } },
         Spec { name: "record version (encrypted record)", bits: 16, registry: Some(&ia::VERSION), probe: |v, t| {
-            let b = rec(t.u8(), v as u16, &t.small_blob(20));
+            let b = rec(t.u8(), v as u16, &big_or_small(t, v));
             parse_tls_encrypted(&b).map(|(_, p)| p.hdr.version.0 as u32).map_err(err)
         } },
         Spec { name: "record version (raw record)", bits: 16, registry: Some(&ia::VERSION), probe: |v, t| {
-            let b = rec(t.u8(), v as u16, &t.small_blob(20));
+            let b = rec(t.u8(), v as u16, &big_or_small(t, v));
             parse_tls_raw_record(&b).map(|(_, p)| p.hdr.version.0 as u32).map_err(err)
         } },
         Spec { name: "content type (raw record)", bits: 8, registry: Some(&ia::RECORD_TYPE), probe: |v, t| {
-            let b = rec(v as u8, t.u16(), &t.small_blob(20));
+            let b = rec(v as u8, t.u16(), &big_or_small(t, 0));
             parse_tls_raw_record(&b).map(|(_, p)| p.hdr.record_type.0 as u32).map_err(err)
         } },
         Spec { name: "content type (encrypted record)", bits: 8, registry: Some(&ia::RECORD_TYPE), probe: |v, t| {
-            let b = rec(v as u8, t.u16(), &t.small_blob(20));
+            let b = rec(v as u8, t.u16(), &big_or_small(t, 0));
             parse_tls_encrypted(&b).map(|(_, p)| p.hdr.record_type.0 as u32).map_err(err)
         } },
         Spec { name: "content type (record header)", bits: 8, registry: Some(&ia::RECORD_TYPE), probe: |v, t| {
